@@ -569,7 +569,7 @@ func (b *Builder) of1(v ssa.Value, at ssa.Instruction, depth int) *Term {
 	case *ssa.Field:
 		return b.mk("field", fieldName(x.X.Type(), x.Field), v, b.of(x.X, at, depth+1))
 	case *ssa.MakeSlice:
-		return b.mk("makeslice", typeName(x.Type()), v, b.of(x.Len, at, depth+1), b.of(x.Cap, at, depth+1))
+		return b.withHistory(b.mk("makeslice", typeName(x.Type()), v, b.of(x.Len, at, depth+1), b.of(x.Cap, at, depth+1)), v, at, depth)
 	case *ssa.MakeMap:
 		return b.mk("makemap", typeName(x.Type()), v)
 	case *ssa.MakeChan:
@@ -796,13 +796,50 @@ func (b *Builder) history(root ssa.Value, at ssa.Instruction, depth int) []*Term
 			}
 		}
 	}
-	sort.SliceStable(must, func(i, j int) bool { return InstrDominates(must[i].ins, must[j].ins) })
-	var out []*Term
+	// order: an event precedes another if it dominates it, or can reach it but not vice versa
+	type oev struct {
+		ev
+		may bool
+	}
+	var all []oev
 	for _, e := range must {
-		out = append(out, e.term)
+		all = append(all, oev{e, false})
 	}
 	for _, e := range may {
-		out = append(out, b.mk("maybe", "", nil, e.term))
+		all = append(all, oev{e, true})
+	}
+	before := func(x, y ev) bool {
+		if InstrDominates(x.ins, y.ins) {
+			return true
+		}
+		if InstrDominates(y.ins, x.ins) {
+			return false
+		}
+		return b.canReach(x.ins, y.ins) && !b.canReach(y.ins, x.ins)
+	}
+	var out []*Term
+	for len(all) > 0 {
+		pick := 0
+		for i := range all {
+			blocked := false
+			for j := range all {
+				if i != j && before(all[j].ev, all[i].ev) {
+					blocked = true
+					break
+				}
+			}
+			if !blocked {
+				pick = i
+				break
+			}
+		}
+		e := all[pick]
+		all = append(all[:pick], all[pick+1:]...)
+		if e.may {
+			out = append(out, b.mk("maybe", "", nil, e.term))
+		} else {
+			out = append(out, e.term)
+		}
 	}
 	return out
 }
